@@ -376,6 +376,7 @@ class C20(Check):
         res = ShardResult()
         if not jitlab.shard_enabled(shard):
             res.dropped["shard-not-selected(VERIF_ONLY_SHARDS)"] += 1
+            res.exhaustive["all-shards-run"] = False
             return res
         maps = MAPS_THOROUGH if tier == "thorough" else MAPS_QUICK
         units, ngen = plan_units(tier)
